@@ -127,9 +127,9 @@ Theorem T08d_varCovar_pseudo_inverse : forall n (pinv : nmat -> nmat),
 Proof. exact varCovar_is_pinv_of_minus_H. Qed.
 Print Assumptions T08d_varCovar_pseudo_inverse.
 
-(* non-vacuity: for n = 0 every function is a pseudo-inverse; for n = 1 reciprocal-or-zero is one *)
-Example T08d_pinv_example : forall A, penrose 0 A A.
-Proof. intros A. repeat split; intros i j Hi; inversion Hi. Qed.
+(* non-vacuity: a function satisfying the Penrose equations exists (1 x 1: reciprocal, 0 for the zero matrix) *)
+Example T08d_pinv_example : forall A, penrose 1 A (pinv1 A).
+Proof. exact pinv1_penrose. Qed.
 
 (* ---- T08e. p-values lie in [0,1] and decrease with |t| (hypotheses on Phi listed in the statement). *)
 Theorem T08e_p_range : forall Phi : R -> R,
